@@ -9,13 +9,21 @@ Twisted folded in: the request Deferreds have no canceller, so `cancel()` fires 
 and leaves the `_pending` entry; the `callback`/`errback` that later reaches such a Deferred is
 swallowed (`_suppressAlreadyCalled`).  After `loseConnection()` the remaining packets of the SAME
 `dataReceived` call are still delivered (the loop does not look at the transport).
+`connectionLost(reason)` fails every pending Deferred with that very `reason` and keeps it in `_failed`:
+a `request()` made afterwards fails with the same reason.
 -/
 namespace Afkak.Bootstrap
 open Afkak.Frame Afkak.Consts
 
+/-- the `reason` handed to `connectionLost`, by class: `ConnectionDone` (closed cleanly, also what
+    `loseConnection()` ends in), `ConnectionLost` (unclean), anything else -/
+inductive Reason
+  | done | lost | other
+  deriving DecidableEq, Repr
+
 inductive Res
   | ok (b : Bytes)
-  | connLost     -- the `reason` of `connectionLost`
+  | connLost (r : Reason)   -- the `reason` of `connectionLost`, which is also what `_failed` keeps
   | cancelled
   deriving DecidableEq, Repr
 
@@ -29,18 +37,20 @@ structure St where
   /-- `self._pending`; `none` after `connectionLost` -/
   pending : Option (List Pend)
   failed : Bool
+  /-- `self._failed` once it is set: the reason `connectionLost` was called with -/
+  reason : Reason := .done
   rbuf : Bytes
   losing : Bool
   nreq : Nat
   deriving DecidableEq, Repr
 
-def St.init : St := { pending := some [], failed := false, rbuf := [], losing := false, nreq := 0 }
+def St.init : St := { pending := some [], failed := false, reason := .done, rbuf := [], losing := false, nreq := 0 }
 
 inductive Ev
   | request (payload : Bytes)
   | cancel (serial : Nat)
   | bytesIn (chunk : Bytes)
-  | lost
+  | lost (reason : Reason)
   deriving DecidableEq, Repr
 
 inductive Ob
@@ -74,7 +84,7 @@ def deliver (ps : List Pend) (losing : Bool) : List Bytes → List Pend × Bool 
 
 def step (s : St) : Ev → St × List Ob
   | .request payload =>
-    if s.failed then ({ s with nreq := s.nreq + 1 }, [.fire s.nreq .connLost])
+    if s.failed then ({ s with nreq := s.nreq + 1 }, [.fire s.nreq (.connLost s.reason)])
     else match s.pending with
       | none => (s, [.badOp])       -- unreachable: `_pending is None` only when `_failed` is set
       | some ps =>
@@ -99,12 +109,12 @@ def step (s : St) : Ev → St × List Ob
         let r := deliver ps s.losing f.frames
         ({ s with pending := some r.1, rbuf := f.buf, losing := r.2.1 || f.exceeded },
          r.2.2 ++ (if f.exceeded then [.lose] else []))
-  | .lost =>
+  | .lost rsn =>
     match s.pending with
     | none => (s, [.badOp])
     | some ps =>
-      ({ s with pending := none, failed := true },
-       (ps.filter (fun p => !p.cancelled)).map (fun p => .fire p.serial .connLost))
+      ({ s with pending := none, failed := true, reason := rsn },
+       (ps.filter (fun p => !p.cancelled)).map (fun p => .fire p.serial (.connLost rsn)))
 
 def trace (s : St) : List Ev → List (Ev × List Ob)
   | [] => []
